@@ -98,3 +98,10 @@ Theorem C13_int32_serials_distinct_within_2_32_calls :
   forall c sched, (Z.of_nat (length sched) <= 4294967296)%Z -> NoDup (map snd (run_add32 c sched)).
 Proof. exact int32_serials_distinct_within_2_32_calls. Qed.
 Print Assumptions C13_int32_serials_distinct_within_2_32_calls.
+
+(** the wrap is the one of Go's int32 (the harness starts generators just below MaxInt32 and at
+    MinInt32 and checks the same sequence on the implementation) *)
+Example C13_int32_wrap_example :
+  map snd (run_add32 2147483646%Z [0; 1; 0]%nat) = [2147483647; -2147483648; -2147483647]%Z /\
+  map snd (run_add32 (-2147483648)%Z [2; 2]%nat) = [-2147483647; -2147483646]%Z.
+Proof. split; vm_compute; reflexivity. Qed.
